@@ -625,7 +625,15 @@ func c19Do(srv *samlidp.Server, rq c19Req, notch int, seed string) *c19Reply {
 	}
 	w := &strictWriter{hdr: http.Header{}}
 	rep := &c19Reply{w: w}
-	_, rep.panic = guard(func() error { srv.ServeHTTP(w, r); return nil })
+	// a request that never returns (a handler deadlocked against itself) must end the case, not the worker: 30 s is three orders of
+	// magnitude above the slowest request here (a bcrypt hash), and after the first such request no further one is attempted
+	if c19Hung {
+		return &c19Reply{w: &strictWriter{hdr: http.Header{}}, panic: "request never returned (an earlier request of this process still has not)@samlidp.Server.ServeHTTP-never-returned"}
+	}
+	if !returnsWithin(30*time.Second, func() { _, rep.panic = guard(func() error { srv.ServeHTTP(w, r); return nil }) }) {
+		c19Hung = true
+		return &c19Reply{w: &strictWriter{hdr: http.Header{}}, panic: fmt.Sprintf("%s %s did not return within 30 s@samlidp.Server.ServeHTTP-never-returned", rq.method, rq.path)}
+	}
 	rep.code = w.code
 	rep.body = w.body.Bytes()
 	resp := http.Response{Header: w.hdr}
@@ -702,7 +710,36 @@ func c19Initials() []*c19State {
 	return []*c19State{seeded, empty}
 }
 
+// c19Hung: a request or registry lookup of this process never returned; nothing further is sent to the library by these drivers.
+var c19Hung bool
+
+// returnsWithin runs f on its own goroutine and reports whether it returned within d (f keeps running otherwise).
+func returnsWithin(d time.Duration, f func()) bool {
+	done := make(chan struct{})
+	go func() { defer close(done); f() }()
+	select {
+	case <-done:
+		return true
+	case <-time.After(d):
+		return false
+	}
+}
+
+const registryLookupHung = "REGISTRY-LOOKUP-NEVER-RETURNED"
+
 func observeRegistry(srv *samlidp.Server) string {
+	if c19Hung {
+		return registryLookupHung
+	}
+	var out string
+	if !returnsWithin(30*time.Second, func() { out = observeRegistry1(srv) }) {
+		c19Hung = true
+		return registryLookupHung
+	}
+	return out
+}
+
+func observeRegistry1(srv *samlidp.Server) string {
 	var parts []string
 	for _, e := range []string{c19EntA, c19EntB, c19EntZ, c19EntN, c19EntAc} {
 		md, err := srv.GetServiceProvider(nil, e)
